@@ -210,8 +210,9 @@ Fixpoint all_some {A} (l : list (option A)) : option (list A) :=
   end.
 
 (* three-valued, left-to-right, short-circuit; conditions are boolean combinations of atoms;
-   an atom is any call-free expression (evaluated by [eval]) or a predicate call *)
-Fixpoint seval (d : nat) (decls : list pred_decl) : tenv -> expr -> res :=
+   an atom is any call-free expression (evaluated by [eval]) or a predicate call.  A predicate
+   body sees its own formal parameters and the FROM aliases (env0), not its caller's formals. *)
+Fixpoint seval (d : nat) (decls : list pred_decl) (env0 : tenv) : tenv -> expr -> res :=
   fix go (env : tenv) (e : expr) {struct e} : res :=
     match e with
     | EParen a => go env a
@@ -240,7 +241,7 @@ Fixpoint seval (d : nat) (decls : list pred_decl) : tenv -> expr -> res :=
         | S d' =>
             match find_decl decls f (length args), all_some (List.map (arg_entity env) args) with
             | Some decl, Some ents =>
-                seval d' decls (combine (List.map snd (pd_params decl)) ents ++ env) (pd_body decl)
+                seval d' decls env0 (combine (List.map snd (pd_params decl)) ents ++ env0) (pd_body decl)
             | _, _ => OutOfFragment
             end
         | O => OutOfFragment
@@ -252,7 +253,7 @@ Definition spec_accepted (q : query) (t : list node) : verdict :=
   match q_where q with
   | None => Accept
   | Some e =>
-      match seval max_depth (q_preds q) (tuple_env q t) e with
+      match seval max_depth (q_preds q) (tuple_env q t) (tuple_env q t) e with
       | Val (VB true) => Accept
       | OutOfFragment => Unknown
       | _ => Reject
